@@ -118,6 +118,15 @@ def unchars(cs) -> str:
     return "".join(" " if c == "SP" else "\n" if c == "NL" else c for c in cs)
 
 
+# libraries that stand for a hook passed through node_to_html / node_to_text to expand(): for the
+# specification template t has the body "%F%" / "%P%"; on the real side NO template t is installed and
+# template_fn answers for t, resp. `show` is installed and post_template_fn replaces the expansion of t
+HOOK_LIBS = {
+    "fn": {"installed": {}, "kw": {"template_fn": lambda name, ht: "%F%" if name == "t" else None}},
+    "post": {"installed": None, "kw": {"post_template_fn": lambda name, ht, expanded: "%P%" if name == "t" else None}},
+}
+
+
 class Ctxs:
     """One real context per template library."""
 
@@ -125,7 +134,9 @@ class Ctxs:
         self.d = d
         self.by_key = {}
 
-    def get(self, libdef):
+    def get(self, libdef, lib=None):
+        if lib in HOOK_LIBS:
+            libdef = HOOK_LIBS[lib]["installed"] if HOOK_LIBS[lib]["installed"] is not None else V_LIBS["show"]
         key = common.json_key(libdef)
         if key not in self.by_key:
             ctx = ptree2.new_ctx(self.d, f"l{len(self.by_key)}")
@@ -141,14 +152,15 @@ class Ctxs:
                 pass
 
 
-def real_calls(ctx, value, hname):
+def real_calls(ctx, value, hname, lib=None):
     """(handled, html, text) of the real code; an exception is reported as {"exception": repr}."""
     h = mk_handler(hname)
     out = []
-    for fn in (ctx.node_to_wikitext, ctx.node_to_html, ctx.node_to_text):
+    for k, fn in enumerate((ctx.node_to_wikitext, ctx.node_to_html, ctx.node_to_text)):
         ctx.start_page("Pg")
+        kw = HOOK_LIBS[lib]["kw"] if k > 0 and lib in HOOK_LIBS else {}
         try:
-            out.append(fn(value, node_handler_fn=h))
+            out.append(fn(value, node_handler_fn=h, **kw))
         except Exception as e:  # noqa: BLE001
             out.append({"exception": repr(e)})
     return out
@@ -213,9 +225,9 @@ def run_g(o: Outcome, rep: Report, cases, info: dict, corrupt=None):
         ctxs = Ctxs(d)
         try:
             for c in cases:
-                ctx = ctxs.get(c["libdef"])
+                ctx = ctxs.get(c["libdef"], c["lib"])
                 value = build(c["x"])
-                got = real_calls(ctx, value, c["h"])
+                got = real_calls(ctx, value, c["h"], c["lib"])
                 o.evaluations += 3
                 exp = [ptree2.concretise(c["handled"])]
                 names = ["handled"]
@@ -356,6 +368,9 @@ V_LIBS = {
     "deep": {"t": [{"w": "plain", "c": [_T("("), {"k": "c", "name": "u", "args": [{"named": False, "key": [], "val": [_P("1")]}]}, _T(")")]}],
              "u": [{"w": "plain", "c": [_T("<"), _P("1", "e"), _T(">", "SP")]}]},
     "none": {"u": [{"w": "plain", "c": [_T("u")]}]},
+    # stand-ins for the hooks (HOOK_LIBS): what the specification is told the library is
+    "fn": {"t": [{"w": "plain", "c": [_T("%", "F", "%")]}]},
+    "post": {"t": [{"w": "plain", "c": [_T("%", "P", "%")]}]},
 }
 
 SOUP = ["<", ">", "/", " ", "\n", "ref", "Ref", "br", "hr", "h2", "H3", "div1", "div", "b", "a1", "x", "[[", "]]", "[", "]", "|",
@@ -388,7 +403,7 @@ def record_v(seed_: int, ndocs: int, nsoups: int, libdefs: dict):
                     text = rdoc(rng, rng.choice([2, 3, 3, 4]))
                     lib = rng.choice(libnames)
                     hname = rng.choice(HANDLERS)
-                ctx = ctxs.get(libdefs[lib])
+                ctx = ctxs.get(libdefs[lib], lib)
                 if soup:
                     value = text
                     ax = {"s": ptree2.atoms(text)}
@@ -399,7 +414,7 @@ def record_v(seed_: int, ndocs: int, nsoups: int, libdefs: dict):
                         n_parse_exc += 1
                         continue
                     ax = ptree2.node(value)
-                got = real_calls(ctx, value, hname)
+                got = real_calls(ctx, value, hname, lib)
                 recs.append({"kind": "soup" if soup else "V", "source": text, "x": ax, "h": hname, "lib": lib, "libdef": libdefs[lib], "got": got})
         finally:
             ctxs.close()
@@ -434,7 +449,7 @@ def trace_parallel(ok, nbatch: int, cov: bool):
     nbatch = max(1, min(nbatch, len(ok)))
     size = (len(ok) + nbatch - 1) // nbatch
     cuts = [(k, ok[k:k + size]) for k in range(0, len(ok), size)]
-    with cf.ThreadPoolExecutor(max_workers=len(cuts)) as ex:
+    with cf.ThreadPoolExecutor(max_workers=min(4, len(cuts))) as ex:
         outs = list(ex.map(lambda kc: trace_records(kc[1], cov=cov), cuts))
     tot = common.TLCResult("", 0, 0.0)
     bad, readable, fired = [], 0, set()
@@ -522,13 +537,13 @@ def extend(o: Outcome, tier: str, pid: str) -> None:
     rep = Report(o)
     info: dict = {}
     parts = 10 if thorough else 1     # thorough: one TLC run per family of Gen_Render.FamT
-    with cf.ThreadPoolExecutor(max_workers=parts + 3) as ex:
+    with cf.ThreadPoolExecutor(max_workers=6 if thorough else 4) as ex:     # at most six JVMs at a time
         f_mc = ex.submit(_mc, thorough)
         # (the quick tier starts three JVMs: laws, cases, trace; the vacuity guard runs in the thorough tier)
         f_demo = ex.submit(_demo) if thorough else None
-        f_gen = [ex.submit(_gen, "T" if thorough else "Q", p, parts) for p in range(parts)]
         f_v = ex.submit(v_pipeline, common.seed() * 7919 + 19, 1200 if thorough else 50, 2500 if thorough else 100,
                         8 if thorough else 1, thorough)
+        f_gen = [ex.submit(_gen, "T" if thorough else "Q", p, parts) for p in range(parts)]
         cases = []
         gen = common.TLCResult("", 0, 0.0)
         for f in f_gen:
@@ -598,7 +613,7 @@ def replay(case) -> int:
     with Scratch("render-r-") as d:
         ctxs = Ctxs(d)
         try:
-            ctx = ctxs.get(libdef)
+            ctx = ctxs.get(libdef, c.get("lib"))
             if c.get("kind") == "G":
                 value, ax = build(c["x"]), c["x"]
             elif c.get("kind") == "soup":
@@ -606,7 +621,7 @@ def replay(case) -> int:
             else:
                 value = ptree2.parse(ctx, c["source"])
                 ax = ptree2.node(value)
-            got = real_calls(ctx, value, c.get("h", "none"))
+            got = real_calls(ctx, value, c.get("h", "none"), c.get("lib"))
         finally:
             ctxs.close()
     for n, g in zip(["to_wikitext", "to_html", "to_text"], got):
